@@ -1,14 +1,18 @@
 // C14 vocabulary, transcribed from the property statement.
-// truncating division (Rust's `/` on signed integers)
+// truncating division (Rust's `/` on signed integers): used ONLY to describe what the code's arithmetic does, never
+// in the acceptance rule below
 spec fn tdiv(a: int, b: int) -> int { if a >= 0 { a / b } else { -((-a) / b) } }
 // the window: local not before the epoch (and representable), -59900 <= local - base <= +2990, no wrap
 spec fn window_ok(local_ms: int, base_ms: int) -> bool {
     0 <= local_ms <= 0xffff_ffff_ffff_ffff && -59_900 <= local_ms - base_ms <= 2_990
 }
-spec fn local_ms(t: time::PrimitiveDateTime) -> int { tdiv(t.utc_nanos(), 1_000_000) }
-// the acceptance rule of VouchedTime::new / check
+// the local time in whole milliseconds since the epoch (the millisecond the instant falls in: floor; spec `/` on int
+// with a positive divisor is floor division)
+spec fn local_ms(t: time::PrimitiveDateTime) -> int { t.utc_nanos() / 1_000_000 }
+// the acceptance rule of VouchedTime::new / check, from the property statement: the voucher vouches for the base time,
+// the local time is not before the Unix epoch (at the clock's own resolution, not after rounding), and the window
 spec fn acceptable(t: time::PrimitiveDateTime, base: u64, v: raffle::Voucher) -> bool {
-    raffle::vouches(base_time_check(), base, v) && window_ok(local_ms(t), base as int)
+    raffle::vouches(base_time_check(), base, v) && t.utc_nanos() >= 0 && window_ok(local_ms(t), base as int)
 }
 impl VouchedTime {
     // representation invariant: every VouchedTime handed out by the constructors satisfies it
